@@ -96,23 +96,22 @@ class DefaultHandler(BaseHandler):
             return last_seq, None
         file_list.sort()
         msg_file_name = file_list[-1]
-        try:
-            with open(msg_path + msg_file_name, 'r') as fh:
-                line = None
-                for line in fh:
-                    pass
-                last = line
-                if line:
-                    if last.startswith('['):
-                        last_seq = eval(last)[1]
-                    elif last.startswith('{'):
-                        last_seq = json.loads(last)['seq']
-        except OSError:
-            LOG.error('Error when reading bgp message files')
-        except Exception as e:
-            LOG.debug(traceback.format_exc())
-            LOG.error(e)
-            sys.exit()
+        # the newest file can be empty (just rotated) and its last line can be
+        # a record torn by a crash: take the last complete record there is
+        for file_name in reversed(file_list):
+            try:
+                with open(msg_path + file_name, 'r') as fh:
+                    lines = fh.readlines()
+            except OSError:
+                LOG.error('Error when reading bgp message files')
+                continue
+            for line in reversed(lines):
+                try:
+                    if line.startswith('['):
+                        return eval(line)[1], msg_file_name
+                    return json.loads(line)['seq'], msg_file_name
+                except Exception:
+                    continue
 
         return last_seq, msg_file_name
 
